@@ -1149,8 +1149,59 @@ def per_call_recipe_probe(ctx):
                          f"returns {got}, a fresh retort {want}", case)
 
 
+def converter_history_suite(ctx: Ctx):
+    """histories of get_converter / convert calls on ONE conversion retort that differ in the per-call `recipe=` and in the
+    converter name: every call must return what the same call returns on a never-used retort (a per-call recipe works on a
+    throw-away clone, and is honoured no matter what was requested before)"""
+    import itertools
+    from dataclasses import dataclass
+
+    from adaptix.conversion import ConversionRetort, coercer
+
+    @dataclass
+    class HSrc:
+        a: int
+        b: int
+
+    @dataclass
+    class HDst:
+        a: int
+        b: int
+
+    recipes = {"plain": None, "x100": [coercer(int, int, lambda x: x * 100)], "neg": [coercer(int, int, lambda x: -x)]}
+    ops = [(r, n, api) for r in recipes for n in (None, "named") for api in ("get_converter", "convert") if not (api == "convert" and n)]
+    src = HSrc(1, 2)
+
+    def do(retort, op):
+        r, n, api = op
+        kw = {} if recipes[r] is None else {"recipe": recipes[r]}
+        if api == "convert":
+            out = retort.convert(src, HDst, **kw)
+        else:
+            out = retort.get_converter(HSrc, HDst, name=n, **kw)(src)
+        return (out.a, out.b)
+    want = {op: do(ConversionRetort(), op) for op in ops}
+    seqs = [list(p) for k in (1, 2) for p in itertools.product(ops, repeat=k)]
+    seqs += [[ctx.rng.choice(ops) for _ in range(ctx.rng.randint(3, 5))] for _ in range(ctx.budget(60, 600))]
+    for seq in seqs:
+        retort = ConversionRetort()
+        case = {"probe": "converter-history", "seq": [list(map(str, op)) for op in seq]}
+        ctx.note_case(case, nontrivial=len({op[0] for op in seq}) > 1, kind=f"converter-history:{min(len(seq), 3)}")
+        for k, op in enumerate(seq):
+            try:
+                got = do(retort, op)
+            except Exception as e:  # noqa: BLE001
+                ctx.fail("history:per-call-recipe:raises", f"call #{k} {op} raised {type(e).__name__}: {e}"[:200], case)
+                break
+            if got != want[op]:
+                ctx.fail("history:per-call-recipe", f"call #{k} {op} after {seq[:k]} returns {got}; on a never-used retort {want[op]}",
+                         dict(case, seq=case["seq"][: k + 1]))
+                break
+
+
 def run(ctx: Ctx):
     per_call_recipe_probe(ctx)
+    converter_history_suite(ctx)
     pool = get_pool()
     real = Real(pool)
     drv = None
@@ -1200,6 +1251,8 @@ def search(ctx: Ctx):
         if ctx.failures:
             return
     wide_suite(ctx, pool, real, 1500)
+    if not ctx.failures:
+        converter_history_suite(ctx)
     if not ctx.failures:
         closure_state_suite(ctx, 1000)
 
